@@ -24,13 +24,11 @@ impl Listing {
     }
 
     pub fn insert(&mut self, line: Line) -> Option<Line> {
-        Arc::get_mut(&mut self.source)
-            .unwrap()
-            .insert(line.number(), line)
+        Arc::make_mut(&mut self.source).insert(line.number(), line)
     }
 
     pub fn remove(&mut self, ln: LineNumber) -> Option<Line> {
-        Arc::get_mut(&mut self.source).unwrap().remove(&ln)
+        Arc::make_mut(&mut self.source).remove(&ln)
     }
 
     pub fn remove_range(&mut self, range: RangeInclusive<LineNumber>) -> bool {
@@ -42,7 +40,7 @@ impl Listing {
         if to_remove.is_empty() {
             return false;
         }
-        let source = Arc::get_mut(&mut self.source).unwrap();
+        let source = Arc::make_mut(&mut self.source);
         for line_number in to_remove {
             source.remove(&line_number);
         }
@@ -69,9 +67,7 @@ impl Listing {
         let line = Line::new(line);
         if line.is_empty() {
             if !line.is_direct() {
-                Arc::get_mut(&mut self.source)
-                    .unwrap()
-                    .remove(&line.number());
+                Arc::make_mut(&mut self.source).remove(&line.number());
             }
             Ok(())
         } else if line.is_direct() {
